@@ -79,19 +79,12 @@ func probeOne(j job) map[string]any {
 		// after a bounded number of yields the context is cancelled, which must release it.
 		done := make(chan struct{})
 		go func() { defer close(done); safe(func() { f(w, c) }) }()
-		returned := false
-		for k := 0; k < 400 && !returned; k++ {
-			select {
-			case <-done:
-				returned = true
-			default:
-				runtime.Gosched()
-				if k%20 == 19 {
-					time.Sleep(50 * time.Microsecond)
-				}
-			}
-		}
-		if !returned {
+		// wait until nothing runs any more: the call has returned or is parked (a budget that runs out
+		// only costs coverage: the call is then cancelled earlier than necessary)
+		_, _ = rt.QuiesceBudget(3000)
+		select {
+		case <-done:
+		default:
 			w.cancel()
 			select {
 			case <-done:
@@ -100,14 +93,9 @@ func probeOne(j job) map[string]any {
 			}
 		}
 	}
-	// effects that the method only triggers (the Broker's goroutines): give them a bounded
-	// number of yields; this affects coverage only, never a verdict.
-	for k := 0; k < 200; k++ {
-		runtime.Gosched()
-		if k%20 == 19 {
-			time.Sleep(100 * time.Microsecond)
-		}
-	}
+	// effects that the method only triggers (the Broker's goroutines) have happened once everything is
+	// parked again; this affects coverage only, never a verdict.
+	_, _ = rt.QuiesceBudget(3000)
 	w.finish()
 	settle(base)
 	curProbe.Store(nil)
